@@ -11,6 +11,17 @@ import (
 	. "verifharness/common"
 )
 
+// nilValue is the integer that stands for a stored untyped nil (a legitimate value: a key
+// stored with nil is present, and Get/Peek must say so)
+const nilValue = -7
+
+func toVal(v int64) interface{} {
+	if v == nilValue {
+		return nil
+	}
+	return v
+}
+
 func key(k int64) string { return fmt.Sprintf("k%d", k) }
 func unkey(v interface{}) int64 {
 	s, ok := v.(string)
@@ -25,6 +36,9 @@ func unkey(v interface{}) int64 {
 // value seen by a caller/callback as an integer; anything that is not the stored int64
 // (e.g. a *list.Element handed to the callback) is reported as -999
 func val(v interface{}) int64 {
+	if v == nil {
+		return nilValue
+	}
 	switch x := v.(type) {
 	case int64:
 		return x
@@ -49,7 +63,7 @@ func run(in Sx) Sx {
 		panicked, pv := Catch(func() {
 			switch op.At(0).AsInt() {
 			case 0:
-				out = List(Int(0), Bool(c.Put(key(op.At(1).Int64()), op.At(2).Int64())))
+				out = List(Int(0), Bool(c.Put(key(op.At(1).Int64()), toVal(op.At(2).Int64()))))
 			case 1:
 				if v, ok := c.Get(key(op.At(1).Int64())); ok {
 					out = List(Int(1), Int(val(v)))
@@ -133,7 +147,12 @@ func gen(a Args, out *Out) {
 			var op Sx
 			switch d := rng.Intn(100); {
 			case d < 38:
-				op = Ints(0, k, int64(rng.Intn(valRange)))
+				v := int64(rng.Intn(valRange))
+				if rng.Chance(1, 12) {
+					v = nilValue
+					out.Count("put-nil-value")
+				}
+				op = Ints(0, k, v)
 				size++
 				if size > capacity {
 					evictions++
